@@ -8,6 +8,7 @@ import (
 	"fmt"
 	"go/types"
 	"sort"
+	"strings"
 
 	"golang.org/x/tools/go/ssa"
 )
@@ -24,6 +25,7 @@ type globalInit struct {
 	mapVals []interface{}           // ... with *ssa.Const or *constStruct or *ssa.Global (copy of a struct global) values
 	isMap   bool
 	mapType *types.Map
+	nonNil  bool // interface-typed global initialised with a freshly made (non-nil) error
 }
 
 func (E *Engine) scanInits() {
@@ -133,6 +135,11 @@ func (E *Engine) scanInitBlock(b *ssa.BasicBlock) {
 				if maps[v] != nil && maps[v].isMap {
 					E.globalInit[gl] = maps[v]
 				}
+			case *ssa.Call:
+				// var ErrX = errors.New(...) / fmt.Errorf(...): a non-nil error value
+				if f, ok := v.Call.Value.(*ssa.Function); ok && (funcKey(f) == "errors.New" || funcKey(f) == "fmt.Errorf") {
+					E.globalInit[gl] = &globalInit{nonNil: true}
+				}
 			default:
 				if l, ok := loaded[x.Val]; ok {
 					if cs, ok := l.(*constStruct); ok {
@@ -177,6 +184,8 @@ func (g *Gen) globalInitFacts(gl *ssa.Global, heap string) {
 	}
 	term := "|" + heap + "@0|"
 	switch {
+	case gi.nonNil:
+		g.emit("(assert (not (= %s iface.nil))) ; %s is initialised with a non-nil error", term, gl.Name())
 	case gi.strct != nil:
 		for _, f := range g.constStructFacts(gi.strct, term) {
 			g.emit("(assert %s) ; initial value of %s", f, gl.Name())
@@ -296,4 +305,113 @@ func (g *Gen) staticType(key string, e Expr) types.Type {
 		}
 	}
 	return nil
+}
+
+// initOnlyFields: struct fields that the loaded code only ever writes on objects it has just
+// allocated in the same function (constructors, composite literals). Such a field of an object that
+// already exists cannot change during any call into the loaded code, so a call with an unknown or
+// coarse (`modifies=all`) effect keeps it. (Assumption recorded in evidence: code outside the loaded
+// packages does not reassign these fields while a function under contract runs.)
+func (E *Engine) initOnlyFields() map[string]bool {
+	if E.initOnly != nil {
+		return E.initOnly
+	}
+	written := map[string]bool{} // heap-name suffix "pkg.Type.field" written on a non-fresh object
+	seenField := map[string]bool{}
+	var rootOf func(v ssa.Value) ssa.Value
+	rootOf = func(v ssa.Value) ssa.Value {
+		for {
+			if fa, ok := v.(*ssa.FieldAddr); ok {
+				v = fa.X
+				continue
+			}
+			return v
+		}
+	}
+	for _, f := range E.funcs {
+		for _, b := range f.Blocks {
+			for _, in := range b.Instrs {
+				var addr ssa.Value
+				switch x := in.(type) {
+				case *ssa.Store:
+					addr = x.Addr
+				case *ssa.Call:
+					// &obj.f passed to a call (atomic.Store..., or anything else): counts as a write
+					for _, a := range x.Call.Args {
+						if fa, ok := a.(*ssa.FieldAddr); ok {
+							st := fa.X.Type().Underlying().(*types.Pointer).Elem()
+							name := typeID(st) + "." + sanitize(st.Underlying().(*types.Struct).Field(fa.Field).Name())
+							seenField[name] = true
+							if _, fresh := rootOf(fa).(*ssa.Alloc); !fresh {
+								written[name] = true
+							}
+						}
+					}
+					continue
+				default:
+					continue
+				}
+				fa, ok := addr.(*ssa.FieldAddr)
+				if !ok {
+					continue
+				}
+				st := fa.X.Type().Underlying().(*types.Pointer).Elem()
+				fld := st.Underlying().(*types.Struct).Field(fa.Field)
+				if _, isStruct := fld.Type().Underlying().(*types.Struct); isStruct {
+					// whole embedded struct assigned: every leaf below counts as written
+					written[typeID(st)+"."+sanitize(fld.Name())+".*"] = true
+					continue
+				}
+				name := typeID(st) + "." + sanitize(fld.Name())
+				seenField[name] = true
+				if _, fresh := rootOf(fa).(*ssa.Alloc); !fresh {
+					written[name] = true
+				}
+			}
+		}
+	}
+	E.initOnly = map[string]bool{}
+	E.writtenFields = written
+	return E.initOnly
+}
+
+// fieldIsInitOnly reports whether heap variable F.<type>.<field> is never written on pre-existing objects.
+func (E *Engine) fieldIsInitOnly(heap string) bool {
+	E.initOnlyFields()
+	if !strings.HasPrefix(heap, "F.") {
+		return false
+	}
+	name := strings.TrimPrefix(heap, "F.")
+	if v, ok := E.initOnly[name]; ok {
+		return v
+	}
+	res := !E.writtenFields[name]
+	if i := strings.LastIndex(name, "."); res && i > 0 {
+		res = !E.embeddedWholeWrites(name[:i])
+	}
+	E.initOnly[name] = res
+	return res
+}
+
+// embeddedWholeWrites: some struct has an embedded field of type tname that is assigned as a whole.
+func (E *Engine) embeddedWholeWrites(tname string) bool {
+	for _, p := range E.pkgs {
+		sc := p.Types.Scope()
+		for _, n := range sc.Names() {
+			tn, ok := sc.Lookup(n).(*types.TypeName)
+			if !ok {
+				continue
+			}
+			st, ok := tn.Type().Underlying().(*types.Struct)
+			if !ok {
+				continue
+			}
+			for i := 0; i < st.NumFields(); i++ {
+				if typeID(st.Field(i).Type()) == tname && E.writtenFields[typeID(tn.Type())+"."+sanitize(st.Field(i).Name())+".*"] {
+					return true
+				}
+			}
+		}
+	}
+	return false
 }
